@@ -317,6 +317,23 @@ Definition relink_fields (fs : list (string * ev)) : res (list (string * ev)) :=
                               else Ok (k, v)
                   end) fs.
 
+(* `expression["kind"] = ParameterKind(expression["kind"])` for ExprParameter: the dumped value becomes the enum member again *)
+Definition fix_kind (fs : list (string * ev)) : res (list (string * ev)) :=
+  mapM (fun kv => match kv with
+                  | (k, v) => if String.eqb k "kind"
+                              then match v with
+                                   | VStr s => if mem_str s parameter_kind_values then Ok (k, VEnum s) else Err EValue
+                                   | _ => Err EValue
+                                   end
+                              else Ok (k, v)
+                  end) fs.
+Definition fix_kind_t (fs : list (string * ev)) : list (string * ev) :=
+  map (fun kv => match kv with
+                 | (k, v) => if String.eqb k "kind"
+                             then (k, match v with VStr s => if mem_str s parameter_kind_values then VEnum s else v | _ => v end)
+                             else (k, v)
+                 end) fs.
+
 Definition load_expression (d : list (string * pv)) : res pv :=
   match lookup "cls" d with
   | Some (PStr c) =>
@@ -324,6 +341,15 @@ Definition load_expression (d : list (string * pv)) : res pv :=
       match class_fields c with
       | None => Err EAttr                                      (* getattr(expressions, name) *)
       | Some spec =>
+          (* ParameterKind(expression["kind"]) is evaluated before the constructor is called *)
+          if String.eqb c "ExprParameter"
+             && match lookup "kind" given with
+                | Some (PStr s) => negb (mem_str s parameter_kind_values)
+                | Some _ => true
+                | None => false
+                end
+          then Err EValue
+          else
           if negb (forallb (fun kv => has_key (fst kv) spec) given) then Err EType       (* unexpected keyword *)
           else if negb (forallb (fun fd => negb (is_required (snd fd)) || has_key (fst fd) given) spec) then Err EType
           else
@@ -339,6 +365,8 @@ Definition load_expression (d : list (string * pv)) : res pv :=
               let shown := filter (fun kv => negb (String.eqb (fst kv) "parent")) all in
               if String.eqb c "ExprAttribute"
               then let! fs' := relink_fields shown in Ok (PExpr (VNode c fs'))
+              else if String.eqb c "ExprParameter" && has_key "kind" given
+              then let! fs' := fix_kind shown in Ok (PExpr (VNode c fs'))
               else Ok (PExpr (VNode c shown))
       end
   | Some _ => Err EType                                        (* getattr(): attribute name must be string *)
@@ -349,7 +377,8 @@ Definition load_expression (d : list (string * pv)) : res pv :=
 Definition load_docstring (d : list (string * pv)) : res (option docstring) :=
   match lookup "docstring" d with
   | None => Ok None
-  | Some (PDict dd) =>
+  | Some (PDict dd0) =>
+      let dd := remove_key "parsed" dd0 in        (* the parsed sections of full dumps are not loaded *)
       if negb (forallb (fun kv => has_key (fst kv) docstring_init) dd) then Err EType
       else if negb (forallb (fun pr => negb (snd pr) || has_key (fst pr) dd) docstring_init) then Err EType
       else if has_key "parent" dd || has_key "parser" dd || has_key "parser_options" dd then Err EUnmodelled
@@ -359,7 +388,7 @@ Definition load_docstring (d : list (string * pv)) : res (option docstring) :=
         let! ln := as_optnum (lookup "lineno" dd) in
         let! eln := as_optnum (lookup "endlineno" dd) in
         Ok (Some (mkDoc (clean s) ln eln))
-  | Some _ => Err EType
+  | Some _ => Err EAttr                       (* obj_dict["docstring"].items() *)
   end.
 
 (* -- _load_decorators: [Decorator( **dec) for dec in obj_dict.get("decorators", [])] *)
@@ -505,9 +534,13 @@ Definition load_members (d : list (string * pv)) : res (list (string * tree)) :=
 Definition load_module (d : list (string * pv)) : res pv :=
   let! n := getitem "name" d in
   let! fp := getitem "filepath" d in
-  let! fp' := (match fp with PStr s => Ok (FPStr s) | PDict _ => Err EUnmodelled | PExpr _ => Err EUnmodelled
-                           | PParam _ => Err EUnmodelled | PTree _ => Err EUnmodelled
-                           | _ => Err EType end) in             (* Path(None), Path([...]), Path(1) *)
+  let! fp' := (match fp with
+               | PStr s => Ok (FPStr s)
+               | PNull => Ok FPNone                                             (* builtin module *)
+               | PList l => let! ss := mapM as_string l in Ok (FPList ss)       (* namespace package *)
+               | PNum _ => Err EType | PBool _ => Err EType                     (* Path(1) *)
+               | _ => Err EUnmodelled
+               end) in
   let! doc := load_docstring d in
   let! n' := as_string n in
   let! ms := load_members d in
@@ -519,12 +552,11 @@ Definition as_ev_list (v : pv) : res (list ev) :=
 
 Definition load_class (d : list (string * pv)) : res pv :=
   let! n := getitem "name" d in
-  let! ln := getitem "lineno" d in
   let! doc := load_docstring d in
   let! decos := load_decorators d in
   let! bases := getitem "bases" d in
   let! n' := as_string n in
-  let! ln' := as_optnum (Some ln) in
+  let! ln' := as_optnum (lookup "lineno" d) in
   let! eln := as_optnum (lookup "endlineno" d) in
   let! bases' := as_ev_list bases in
   let! ms := load_members d in
@@ -536,14 +568,13 @@ Definition load_function (d : list (string * pv)) : res pv :=
   let! ps := getitem "parameters" d in
   let! ret := getitem "returns" d in
   let! decos := load_decorators d in
-  let! ln := getitem "lineno" d in
   let! doc := load_docstring d in
   let! n' := as_string n in
   let! ps' := (match ps with
                | PList l => mapM (fun v => match v with PParam p => Ok p | _ => Err EUnmodelled end) l
                | _ => Err EUnmodelled end) in
   let! ret' := ev_res ret in
-  let! ln' := as_optnum (Some ln) in
+  let! ln' := as_optnum (lookup "lineno" d) in
   let! eln := as_optnum (lookup "endlineno" d) in
   let! ls := load_labels d in
   Ok (PTree (TObj n' ln' eln doc ls [] (XFunction decos ps' ret'))).
@@ -553,10 +584,9 @@ Definition get_ev (k : string) (d : list (string * pv)) : res ev :=
 
 Definition load_attribute (d : list (string * pv)) : res pv :=
   let! n := getitem "name" d in
-  let! ln := getitem "lineno" d in
   let! doc := load_docstring d in
   let! n' := as_string n in
-  let! ln' := as_optnum (Some ln) in
+  let! ln' := as_optnum (lookup "lineno" d) in
   let! eln := as_optnum (lookup "endlineno" d) in
   let! v := get_ev "value" d in
   let! a := get_ev "annotation" d in
@@ -566,27 +596,29 @@ Definition load_attribute (d : list (string * pv)) : res pv :=
 Definition load_alias (d : list (string * pv)) : res pv :=
   let! n := getitem "name" d in
   let! tp := getitem "target_path" d in
-  let! ln := getitem "lineno" d in
   let! n' := as_string n in
   let! tp' := as_string tp in
-  let! ln' := as_optnum (Some ln) in
+  let! ln' := as_optnum (lookup "lineno" d) in
   let! eln := as_optnum (lookup "endlineno" d) in
   Ok (PTree (TAlias n' tp' ln' eln)).
 
-(* json_decoder *)
+(* json_decoder: both tests require the value to be a str (a dict of members may have such keys, bound to objects) *)
 Definition hook (d : list (string * pv)) : res pv :=
-  if has_key "cls" d then load_expression d
-  else match lookup "kind" d with
-       | Some (PStr k) =>
-           if String.eqb k kind_module then load_module d
-           else if String.eqb k kind_class then load_class d
-           else if String.eqb k kind_function then load_function d
-           else if String.eqb k kind_attribute then load_attribute d
-           else if String.eqb k kind_alias then load_alias d
-           else load_parameter d                          (* Kind(k) raises ValueError *)
-       | Some _ => load_parameter d                       (* Kind(<object>) raises ValueError *)
-       | None => Ok (PDict d)
-       end.
+  match lookup "cls" d with
+  | Some (PStr _) => load_expression d
+  | _ =>
+      match lookup "kind" d with
+      | Some (PStr k) =>
+          if String.eqb k kind_module then load_module d
+          else if String.eqb k kind_class then load_class d
+          else if String.eqb k kind_function then load_function d
+          else if String.eqb k kind_attribute then load_attribute d
+          else if String.eqb k kind_alias then load_alias d
+          else if has_key "name" d then load_parameter d       (* Kind(k) raises ValueError: a parameter ... *)
+          else Ok (PDict d)                                     (* ... or a docstring section of a full dump *)
+      | _ => Ok (PDict d)
+      end
+  end.
 
 Fixpoint decode (j : json) : res pv :=
   match j with
@@ -632,6 +664,7 @@ Fixpoint reload_ev (e : ev) : ev :=
                                                then (k, match v with VList l => VList (relink_chain_t false l) | _ => v end)
                                                else (k, v)
                                    end) fs')
+      else if String.eqb c "ExprParameter" then VNode c (fix_kind_t fs')
       else VNode c fs'
   end.
 
@@ -654,7 +687,7 @@ Definition has_members (x : extra) : bool := match x with XModule _ => true | XC
 
 Fixpoint reload (t : tree) : tree :=
   match t with
-  | TAlias n tp ln eln => TAlias n tp ln (zero_to_none eln)
+  | TAlias n tp ln eln => TAlias n tp (zero_to_none ln) (zero_to_none eln)
   | TObj n ln eln doc labels members x =>
       TObj n (if is_module x then None else ln) (if is_module x then None else eln)
            (option_map reload_doc doc) (canon_labels labels)
@@ -674,6 +707,14 @@ Definition dumped_fields (c : string) : option (list string) :=
   | None => None
   end.
 
+(* ExprParameter.kind holds a ParameterKind (or, in a reloaded tree of the unrepaired code, its value) *)
+Definition param_kind_ok (fs : list (string * ev)) : bool :=
+  match lookup "kind" fs with
+  | Some (VEnum s) => mem_str s parameter_kind_values
+  | Some (VStr s) => mem_str s parameter_kind_values
+  | _ => false
+  end.
+
 (* in ExprAttribute.values everything after the first element is an ExprName *)
 Definition attr_values_ok (fs : list (string * ev)) : bool :=
   match fs with
@@ -691,6 +732,7 @@ Fixpoint wf_ev (e : ev) : bool :=
       && match dumped_fields c with Some names => list_eqb (keys_of fs) names | None => false end
       && negb (mem_str "cls" (keys_of fs))
       && (negb (String.eqb c "ExprAttribute") || attr_values_ok fs)
+      && (negb (String.eqb c "ExprParameter") || param_kind_ok fs)
       && forallb (fun kv => match kv with (_, v) => wf_ev v end) fs
   end.
 (* a slot holds None, a str or an Expr *)
@@ -715,7 +757,7 @@ Definition nonzero (o : option Z) : bool := match o with Some z => negb (Z.eqb z
 (* representation invariants (hold of every tree the agents build) *)
 Fixpoint rep (t : tree) : bool :=
   match t with
-  | TAlias n _ _ eln => nonzero eln
+  | TAlias n _ ln eln => nonzero ln && nonzero eln
   | TObj n ln eln doc labels members x =>
       list_eqb (canon_labels labels) labels
       && wf_extra x
@@ -726,30 +768,6 @@ Fixpoint rep (t : tree) : bool :=
   end.
 
 (* the known gaps, each as a decidable predicate (true = the gap is present) *)
-(* G-lineno: an object below a module without line number, an alias without (truthy) line number *)
-Fixpoint gap_lineno (t : tree) : bool :=
-  match t with
-  | TAlias _ _ ln _ => match ln with Some z => Z.eqb z 0 | None => true end
-  | TObj _ ln _ _ _ members x =>
-      (negb (is_module x) && negb (is_some ln))
-      || existsb (fun km => match km with (_, m) => gap_lineno m end) members
-  end.
-(* G-filepath: a module whose filepath is a list (namespace package) or None (builtin) *)
-Fixpoint gap_filepath (t : tree) : bool :=
-  match t with
-  | TAlias _ _ _ _ => false
-  | TObj _ _ _ _ _ members x =>
-      (match x with XModule (FPStr _) => false | XModule _ => true | _ => false end)
-      || existsb (fun km => match km with (_, m) => gap_filepath m end) members
-  end.
-(* G-memberkey: a members dict with a key "cls" or "kind" is taken for an expression / an object *)
-Fixpoint gap_memberkey (t : tree) : bool :=
-  match t with
-  | TAlias _ _ _ _ => false
-  | TObj _ _ _ _ _ members _ =>
-      mem_str "cls" (keys_of members) || mem_str "kind" (keys_of members)
-      || existsb (fun km => match km with (_, m) => gap_memberkey m end) members
-  end.
 (* G-doc: a docstring value that is not a fixpoint of cleandoc(rstrip()) *)
 Definition doc_fix (d : docstring) : bool := String.eqb (clean (d_value d)) (d_value d).
 Definition optdoc_fix (o : option docstring) : bool := match o with Some d => doc_fix d | None => true end.
@@ -763,12 +781,10 @@ Fixpoint gap_doc (t : tree) : bool :=
       || existsb (fun km => match km with (_, m) => gap_doc m end) members
   end.
 
-Definition decodable (t : tree) : bool :=
-  rep t && negb (gap_lineno t) && negb (gap_filepath t) && negb (gap_memberkey t).
-Definition wf (t : tree) : bool := decodable t && negb (gap_doc t).
+Definition wf (t : tree) : bool := rep t && negb (gap_doc t).
 
-(* expression-level gaps: an enum-valued field (lambda parameter kind) comes back as a plain string;
-   a name whose parent link is not what the loader restores *)
+(* expression-level gap: a name whose parent link is not what the loader restores
+   (has_enum: an enum value somewhere; only ExprParameter.kind is converted back on reload) *)
 Fixpoint has_enum (e : ev) : bool :=
   match e with
   | VEnum _ => true
